@@ -407,6 +407,98 @@ static void shifted(const struct cfg5 *c, int k, int shift, uint8_t *y8)
 	}
 }
 
+/* Sampling parameters at and beyond the edge of validity.  "Valid" is what the library admits
+ * (vbi3_raw_decoder_new / _add_services, vbi_raw_decoder_add_services return services): whatever it admits, it
+ * must decode inside the (count[0]+count[1]) x bytes_per_line image those very parameters describe.  A valid
+ * configuration is perturbed in one field (field heights that differ by one with interlaced storage, a field
+ * without lines, bytes_per_line too small for the samples or not a multiple of the pixel size, start lines
+ * outside the picture, absurd offsets and rates); a rejection is as good as a safe decode. */
+static void borderline(const struct cfg5 *c0, struct vf_rng *r)
+{
+	struct cfg5 c = *c0;
+	vbi_sampling_par *sp = &c.sp;
+	vbi3_raw_decoder *rd3;
+	vbi_raw_decoder rdo;
+	unsigned adm3 = 0, admo = 0;
+	int scan, row, what = (int)vf_below(r, 12), n;
+	size_t img_size;
+	uint8_t *img, *y8, *line;
+	vbi_sliced *out;
+	char desc[64];
+	switch (what) {
+	case 0: sp->interlaced = 1; sp->count[1] = sp->count[0] + 1; break;
+	case 1: sp->interlaced = 1; if (sp->count[0] > 1) sp->count[1] = sp->count[0] - 1; else sp->count[1] = sp->count[0] + 1; break;
+	case 2: sp->count[vf_below(r, 2)] = 0; break;
+	case 3: sp->bytes_per_line -= (int)vf_range(r, 1, c.bpp > 1 ? c.bpp : 2); break;
+	case 4: sp->bytes_per_line = sp->bytes_per_line / 2; break;
+	case 5: sp->start[vf_below(r, 2)] = (int[]){ 0, -1, 1, 400, 1000, 65535 }[vf_below(r, 6)]; break;
+	case 6: sp->offset = (int[]){ 0, -1, 1, 5000, 1 << 20 }[vf_below(r, 5)]; break;
+	case 7: sp->sampling_rate = (int[]){ 0, 1, 1000000, 3000000, 200000000 }[vf_below(r, 5)]; break;
+	case 8: sp->interlaced = !sp->interlaced; break;
+	case 9: sp->count[0] += (int)vf_range(r, 1, 3); break;
+	case 10: sp->interlaced = 1; sp->count[1] = sp->count[0] + (int)vf_range(r, 2, 5); break;
+	default: sp->count[1] = 0; sp->count[0] = 1; break;
+	}
+	snprintf(desc, sizeof desc, "borderline parameters, perturbation %d", what);
+	if (sp->count[0] < 0 || sp->count[1] < 0 || sp->bytes_per_line < 1) return;
+	scan = sp->count[0] + sp->count[1];
+	if (scan < 1 || scan > 2000 || sp->bytes_per_line > (1 << 16)) return;
+	img_size = (size_t)scan * (size_t)sp->bytes_per_line;
+	vf_count("borderline_configs", 1);
+
+	vf_phase("vbi3_raw_decoder_new");
+	rd3 = vbi3_raw_decoder_new(sp);
+	if (rd3) { vf_phase("vbi3_raw_decoder_add_services"); adm3 = vbi3_raw_decoder_add_services(rd3, c.req, c.strict); }
+	vbi_raw_decoder_init(&rdo);
+	rdo.scanning = sp->scanning; rdo.sampling_format = sp->sampling_format; rdo.sampling_rate = sp->sampling_rate;
+	rdo.bytes_per_line = sp->bytes_per_line; rdo.offset = sp->offset;
+	rdo.start[0] = sp->start[0]; rdo.start[1] = sp->start[1]; rdo.count[0] = sp->count[0]; rdo.count[1] = sp->count[1];
+	rdo.interlaced = sp->interlaced; rdo.synchronous = sp->synchronous;
+	vf_phase("vbi_raw_decoder_add_services");
+	admo = vbi_raw_decoder_add_services(&rdo, c.req, c.strict);
+	if (!adm3 && !admo) { vf_count("borderline_rejected", 1); goto done; }
+	vf_count("borderline_admitted", 1);
+
+	/* an image of exactly the size the parameters describe, every row a valid signal as far as the row is long */
+	img = EXACT_ALLOC(img_size, 1);
+	y8 = malloc((size_t)c0->spl + 16);
+	line = malloc((size_t)c0->spl * (size_t)c0->bpp + 16);
+	out = EXACT_ALLOC(sizeof(vbi_sliced) * (size_t)scan, 1);
+	if (img && y8 && line && out) {
+		for (row = 0; row < scan; row++) {
+			int k = (int)vf_below(r, (unsigned)c0->nset);
+			size_t nb = (size_t)c0->spl * (size_t)c0->bpp;
+			if (wide_ok[k]) shifted(c0, k, vf_range(r, 0, c0->spl > wide_len[k] ? c0->spl - wide_len[k] : 0), y8);
+			else memset(y8, blank_level, (size_t)c0->spl);
+			put_line(c0, r, line, y8, 0);
+			if (nb > (size_t)sp->bytes_per_line) nb = (size_t)sp->bytes_per_line;
+			memset(img + (size_t)row * (size_t)sp->bytes_per_line, 0, (size_t)sp->bytes_per_line);
+			memcpy(img + (size_t)row * (size_t)sp->bytes_per_line, line, nb);
+		}
+		if (adm3) {
+			next_prefill(); memset(out, PREFILL, sizeof *out * (size_t)scan);
+			set_phase("vbi3_raw_decoder_decode", "borderline", &c);
+			n = (int)vbi3_raw_decoder_decode(rd3, out, (unsigned)scan, img);
+			if (n < 0 || n > scan) vf_fail("model:C05:count-exceeds-max-lines", "vbi3_raw_decoder_decode returned %d records, max_lines %d (%s) | %s", n, scan, desc, cfg_desc(&c));
+			vf_count("borderline_decodes", 1);
+		}
+		if (admo) {
+			next_prefill(); memset(out, PREFILL, sizeof *out * (size_t)scan);
+			set_phase("vbi_raw_decode", "borderline", &c);
+			n = vbi_raw_decode(&rdo, img, out);
+			if (n < 0 || n > scan) vf_fail("model:C05:count-exceeds-max-lines", "vbi_raw_decode returned %d records, image has %d rows (%s) | %s", n, scan, desc, cfg_desc(&c));
+			vf_count("borderline_decodes", 1);
+		}
+	}
+	if (img) EXACT_FREE(img);
+	if (out) EXACT_FREE(out);
+	free(y8); free(line);
+done:
+	vf_phase("vbi3_raw_decoder_delete");
+	if (rd3) vbi3_raw_decoder_delete(rd3);
+	vbi_raw_decoder_destroy(&rdo);
+}
+
 static int run_case(struct vf_rng *r, long idx)
 {
 	struct cfg5 c;
@@ -577,6 +669,7 @@ static int run_case(struct vf_rng *r, long idx)
 	}
 	if (matches) nontrivial = 1;
 	vf_count("cri_matches", matches);
+	if (vf_chance(r, 1, 2)) { int q; for (q = 0; q < 3; q++) borderline(&c, r); }
 
 	vf_phase("vbi3_raw_decoder_delete");
 	vbi3_raw_decoder_delete(x.rd3);
